@@ -44,12 +44,12 @@ func (o *Out) CallIface() int {
 	return t.Size()
 }
 
-func fill(buf []int) { buf[0] = 1 }
+func fill03(buf []int) { buf[0] = 1 }
 
 // a call of a function that writes a slice parameter in place
 func CallFill(n int) int {
 	b := make([]int, n)
-	fill(b)
+	fill03(b)
 	return b[0]
 }
 
@@ -62,4 +62,4 @@ func LitShares(n int) uint64 {
 }
 
 // int(u) for an unbounded 64-bit unsigned value
-func BigConv(u uint64) int { return int(u + 1) }
+func BigConv03(u uint64) int { return int(u + 1) }
